@@ -21,6 +21,7 @@ pub mod c18;
 pub mod c19;
 pub mod c20;
 pub mod extra;
+pub mod extra2;
 
 pub fn all() -> Vec<Property> {
     let mut v = vec![
@@ -46,5 +47,6 @@ pub fn all() -> Vec<Property> {
         c20::property(),
     ];
     extra::extend(&mut v);
+    extra2::extend(&mut v);
     v
 }
